@@ -32,7 +32,7 @@ def _bytes_or_bad(fn):
         return BAD
 
 
-def parse_call(f, mode, pbf, validate):
+def parse_call(f, mode, pbf, validate, bytearray_ok=False):
     from pyubx2 import UBXReader
 
     if len(f) % 2:
@@ -45,20 +45,29 @@ def parse_call(f, mode, pbf, validate):
                     envrot.taint(UBXReader.parse(bytes(f), msgmode=mode, validate=validate, parsebitfield=pbf))
                 except Exception:  # noqa: BLE001 - the observed call below reports it
                     pass
-            if len(f) % 5 == 3:
+            if bytearray_ok and len(f) == 8 and (f[2] + f[3]) % 2:
+                # a payload-less frame still in the bytearray it was received into (C01 only: the library accepts such a frame, and
+                # everything C01 speaks of works on the result; its identity / printed form do not - bytearray is not the documented
+                # argument type, so no other check uses this form)
+                m = UBXReader.parse(bytearray(f), msgmode=mode, validate=validate, parsebitfield=pbf)
+            elif len(f) % 5 == 3:
                 # the documented static method, reached through an instance (as application code holding a reader does)
                 import io
 
                 m = UBXReader(io.BytesIO(b""), validate=1 - (validate & 1)).parse(bytes(f), msgmode=mode, validate=validate, parsebitfield=pbf)
             elif len(f) % 5 == 2:
                 # all arguments positionally; the frame as a bytes subclass, the mode as a member of an IntEnum
-                m = UBXReader.parse(envrot.FrameBytes(f), envrot.mode_arg(mode, len(f) + 3), validate, pbf)
+                m = UBXReader.parse(envrot.FrameBytes(f), envrot.mode_arg(mode, 5), validate, pbf)
             else:
                 m = UBXReader.parse(bytes(f), msgmode=mode, validate=validate, parsebitfield=pbf)
     except Exception as ex:  # noqa: BLE001
         return None, classify_exc(ex)
     if m is None:
         return None, "none"
+    try:
+        m = envrot.twin(m, envrot.key(bytes(f), mode, validate))
+    except Exception as ex:  # noqa: BLE001 - a message that cannot be copied / pickled: reported like a failed call
+        return None, "twin:" + type(ex).__name__
     return m, "msg"
 
 
@@ -68,7 +77,7 @@ def obs_c01(case):
 
     f = bytes.fromhex(case["f"])
     history.run(case.get("hist"))
-    m, out = parse_call(f, case["mode"], case["pbf"], case["validate"])
+    m, out = parse_call(f, case["mode"], case["pbf"], case["validate"], bytearray_ok=True)
     ev = {"prop": "C01", "kind": "parse", "f": list(f), "out": out, "mode": case["mode"], "pbf": case["pbf"],
           "validate": case["validate"], "ser": BAD, "cls": BAD, "mid": BAD, "length": -1, "payload": BAD, "reprser": BAD,
           "repr": "", "reprok": 0, "mmode": -1}
@@ -82,11 +91,11 @@ def obs_c01(case):
         except Exception:  # noqa: BLE001
             ev["length"] = -1
         ev["payload"] = _bytes_or_bad(lambda: m.payload)
-        ev["reprser"] = _bytes_or_bad(lambda: eval(repr(m), {"UBXMessage": UBXMessage, "__builtins__": {}}).serialize())  # noqa: S307
+        ev["reprser"] = _bytes_or_bad(lambda: eval(repr(m), {"UBXMessage": UBXMessage, "__builtins__": {"bytearray": bytearray, "bytes": bytes}}).serialize())  # noqa: S307
         # spec growth: the text itself (short frames only: TLC strings are built character by character)
         try:
             s = repr(m) if len(f) <= 600 else ""
-            ok = bool(s) and s.isascii()
+            ok = bool(s) and s.isascii() and not (len(f) == 8 and (f[2] + f[3]) % 2)  # (not for the bytearray form: its class / ID print as bytearray(...))
             ev["repr"], ev["reprok"], ev["mmode"] = (s if ok else ""), (1 if ok else 0), (int(m.msgmode) if isinstance(m.msgmode, int) else -1)
         except Exception:  # noqa: BLE001
             ev["repr"], ev["reprok"], ev["mmode"] = "", 0, -1
